@@ -153,11 +153,19 @@ struct Feat {
     // are not attributable to a single name, so every later violation of this history carries the predicate
     v3plus_modified: bool,          // a mutating op succeeded on a V3/V4 archive
     compact_without_listfile: bool, // compact succeeded on an archive that has no (listfile)
-    compact_on_stale_view: bool,    // compact succeeded in a session in which a mutation had succeeded before
+    compact_on_stale_view: bool,    // compact succeeded in a session in which a name had come into being (add of a new name, rename)
+    compact_after_replace: bool,    // compact succeeded in a session that had only replaced (and removed) files the view knows
     table_growth_over_slack: bool,  // block-table growth since build/compact exceeds the slack before appended data
     mutated_in_session: bool,
+    /// what kinds of mutation the current session has seen (the stale-view finding depends on the kind)
+    sess_add_new: bool,
+    sess_replace: bool,
+    sess_remove: bool,
+    sess_rename: bool,
     appended_blocks: usize,
     slack_bytes: usize,
+    /// number of operations of the history (short histories have no room for a second cause)
+    hist_len: usize,
 }
 
 impl Feat {
@@ -168,6 +176,8 @@ impl Feat {
             Some("compact-without-listfile")
         } else if self.compact_on_stale_view {
             Some("compact-after-modification-in-session")
+        } else if self.compact_after_replace {
+            Some("compact-after-replace-in-session")
         } else if self.table_growth_over_slack {
             Some("block-table-growth-over-slack")
         } else {
@@ -186,7 +196,18 @@ impl Feat {
         // Under a taint the archive may be damaged in arbitrary ways, so the *kind* of symptom (open error, wrong bytes,
         // missing listing ...) is not a stable feature: one signature per trigger predicate.
         if let Some(t) = self.taint() {
-            format!("after|{t}")
+            // the replace-only variant of the stale-view finding has one symptom (the file is back at the version the view
+            // knows): there the symptom stays part of the signature, so that a different one is not swallowed
+            // (in histories of up to four operations; in long random histories several predicates interact)
+            if t == "compact-after-replace-in-session" && self.hist_len <= 4 {
+                // (a name-level predicate - the file came from renaming an encrypted one - explains itself)
+                match self.name_pred(lw) {
+                    Some(p) => format!("after|{p}"),
+                    None => format!("after|{t}|{family}|{}", tail.rsplit('|').next().unwrap_or("")),
+                }
+            } else {
+                format!("after|{t}")
+            }
         } else if let Some(p) = self.name_pred(lw) {
             format!("after|{p}")
         } else {
@@ -314,6 +335,7 @@ fn run_history(c: &mut Case, st: &Start, ops: &[Op], names: &[String], dir: &Pat
     let mut ever: BTreeSet<String> = model.keys().cloned().collect();
     let mut feat = Feat::default();
     feat.slack_bytes = measure_slack(&path);
+    feat.hist_len = ops.len();
     let mut uid = idx * 1000;
     let mut ma = match MutableArchive::open(&path) {
         Ok(m) => Some(m),
@@ -336,6 +358,7 @@ fn run_history(c: &mut Case, st: &Start, ops: &[Op], names: &[String], dir: &Pat
                 break;
             }
             feat.mutated_in_session = false;
+            (feat.sess_add_new, feat.sess_replace, feat.sess_remove, feat.sess_rename) = (false, false, false, false);
             let reopened = match trap(|| MutableArchive::open(&path)) {
                 Ok(r) => r,
                 Err(p) => {
@@ -368,6 +391,7 @@ fn run_history(c: &mut Case, st: &Start, ops: &[Op], names: &[String], dir: &Pat
                         c.count("unexpected_ok|add-noreplace-on-existing", 1);
                         // a plain map leaves the old value; the state comparison decides
                     } else {
+                        if existed { feat.sess_replace = true } else { feat.sess_add_new = true }
                         model.insert(key.clone(), data);
                         feat.last_writer.insert(key.clone(), kind.clone());
                         feat.adds_ok += 1;
@@ -383,6 +407,7 @@ fn run_history(c: &mut Case, st: &Start, ops: &[Op], names: &[String], dir: &Pat
                     if model.remove(&norm(&n)).is_none() {
                         c.count("unexpected_ok|remove-absent", 1);
                     }
+                    feat.sess_remove = true;
                 }
                 r
             }
@@ -396,6 +421,7 @@ fn run_history(c: &mut Case, st: &Start, ops: &[Op], names: &[String], dir: &Pat
                     } else if model.contains_key(&kt) {
                         c.count("unexpected_ok|rename-onto-existing", 1);
                     } else {
+                        feat.sess_rename = true;
                         let v = model.remove(&kf).unwrap();
                         let lw = feat.last_writer.remove(&kf).unwrap_or_else(|| if kf == "SEED\\ENC.BIN" { "seed-enc".into() } else { "seed".into() });
                         model.insert(kt.clone(), v);
@@ -442,9 +468,18 @@ fn run_history(c: &mut Case, st: &Start, ops: &[Op], names: &[String], dir: &Pat
                     if !st.listfile {
                         feat.compact_without_listfile = true;
                     }
-                    if feat.mutated_in_session {
+                    // the known finding: compact enumerates through the read-only view opened with the session, which does not
+                    // know names that came into being in this session (added, or renamed to). Replacing or removing a file that
+                    // the view knows is judged strictly.
+                    if std::env::var("C06_STALE_ALL").is_ok() && feat.mutated_in_session {
                         feat.compact_on_stale_view = true;
                     }
+                    if feat.sess_add_new || feat.sess_rename {
+                        feat.compact_on_stale_view = true;
+                    } else if feat.sess_replace {
+                        feat.compact_after_replace = true;
+                    }
+                    c.count(&format!("compact_in_session|add_new={}|replace={}|remove={}|rename={}", feat.sess_add_new as u8, feat.sess_replace as u8, feat.sess_remove as u8, feat.sess_rename as u8), 1);
                     // compaction rebuilds the archive: growth restarts, slack is re-measured
                     feat.appended_blocks = 0;
                     feat.slack_bytes = measure_slack(&path);
